@@ -206,3 +206,16 @@ pub fn c03_threshold_unclaimed() {
     kani::cover!(r.is_none() && diff > 0, "below_threshold");
     kani::cover!(true, "end");
 }
+
+/// C02 runtime guard: `send_data` with more than the window panics on every path - the
+/// ledger itself refuses to record an emission that exceeds the peer's credit (this is
+/// what turns a wrong length in `Prioritize::pop_frame`, which is not decidable here,
+/// into a panic instead of a flow-control violation on the wire).
+pub fn c02_ledger_send_data_guard() {
+    let (mut fc, w, _a) = any_fc();
+    let sz = any_u31();
+    kani::assume(sz > 0 && (w as i64) < sz as i64);
+    kani::cover!(true, "end");
+    let _ = fc.send_data(sz);
+    assert!(false, "MARK send_data recorded an emission beyond the window");
+}
